@@ -82,6 +82,9 @@ pub struct Cfg {
     nhosts: usize,
     family: usize,
     steps: usize,
+    /// an extra client that never finishes under a simulation duration of ten ticks: the
+    /// run ends with the "ran for duration" error, whose text is part of the result
+    timeout_client: bool,
 }
 
 const FAMILIES: [&str; 4] = ["udp-fan-in+broadcast", "tcp-echo", "select-spawn", "fs+io_uring"];
@@ -106,13 +109,14 @@ pub fn cfg_from(ch: &mut Chooser, thorough: bool) -> Cfg {
         fs_knobs: ch.deviate("fs_knobs", 4),
         epoch: ch.deviate("epoch", 2) == 1,
         steps: if thorough { 36 } else { 24 },
+        timeout_client: ch.deviate("client_that_never_finishes_and_a_duration_of_10_ticks", 2) == 1,
     }
 }
 
 fn build(cfg: &Cfg) -> turmoil::Sim<'static> {
     let mut b = turmoil::Builder::new();
     b.tick_duration(Duration::from_millis(cfg.tick_ms))
-        .simulation_duration(Duration::from_secs(3600))
+        .simulation_duration(if cfg.timeout_client { Duration::from_millis(cfg.tick_ms * 10) } else { Duration::from_secs(3600) })
         .rng_seed(cfg.seed)
         .min_message_latency(Duration::from_millis(cfg.lat.0))
         .max_message_latency(Duration::from_millis(cfg.lat.1))
@@ -341,6 +345,24 @@ async fn prog_fs(l: Log, me: usize, _n: usize, _v6: bool) -> turmoil::Result {
     log(&l, &name, format!("at start /d holds {names:?}"));
     let r = fs::create_dir_all("/d");
     log(&l, &name, format!("mkdir {:?}", r.map_err(|e| errk(&e))));
+    if !fs::exists("/d/dur0") {
+        // files whose data is synced but whose directory entry never is (a crash sweeps them
+        // away), created before a handful of fully durable files: what a later incarnation
+        // lists, and in which order, is part of the execution
+        let _ = fs::create_dir_all("/o");
+        for i in 0..3 {
+            let f = format!("/o/x{i}");
+            let r = fs::write(&f, [i as u8; 3]).and_then(|_| fs::OpenOptions::new().write(true).open(&f)).and_then(|h| h.sync_all());
+            log(&l, &name, format!("data-synced only {f} {:?}", r.map_err(|e| errk(&e))));
+        }
+        for i in 0..4 {
+            let f = format!("/d/dur{i}");
+            let r = fs::write(&f, [i as u8; 2]).and_then(|_| fs::OpenOptions::new().write(true).open(&f)).and_then(|h| h.sync_all());
+            log(&l, &name, format!("durable {f} {:?}", r.map_err(|e| errk(&e))));
+        }
+        let r = fs::sync_dir("/d").and_then(|_| fs::sync_dir("/"));
+        log(&l, &name, format!("sync_dir /d, / {:?}", r.map_err(|e| errk(&e))));
+    }
     // a handle that stays open for the whole life of this incarnation
     let keep = fs::OpenOptions::new().read(true).write(true).create(true).open("/d/keep");
     let mut k = 0u32;
@@ -469,6 +491,9 @@ pub fn run_trace(cfg: &Cfg, real_delay: bool) -> Vec<String> {
                     }
                 }
             });
+        }
+        if cfg.timeout_client {
+            sim.client("never", async { std::future::pending::<turmoil::Result>().await });
         }
         let last = format!("h{}", n - 1);
         for k in 0..cfg.steps {
